@@ -670,7 +670,10 @@ pub fn run(tier: &str, mode: Mode) -> i32 {
                     strings.push(format!("{}:{}", h, nth_string(alpha, len, i)));
                 }
             }
-            for odd in ["-0.5", "+0.5", "-1", "-0", "-0.0", "+1", "1e0", "1e-1", "5e-1", "1E0", ".5", "0.", "1.", "inf", "-inf", "nan", "NaN", "infinity", "0x1", "1_0", "00", "01", "00.5", "1.5", "2", "10", "0.5f", "0,5", "½", "٠", "０"] {
+            for odd in ["-0.5", "+0.5", "-1", "-0", "-0.0", "+1", "1e0", "1e-1", "5e-1", "1E0", ".5", "0.", "1.", "inf", "-inf", "nan", "NaN", "infinity", "0x1", "1_0", "00", "01", "00.5", "1.5", "2", "10", "0.5f", "0,5", "½", "٠", "０",
+                // literals above 1 with 9, 10, 12, 19, 20 and 39 fraction digits (an exact-fraction comparison in u32 / u64 / u128
+                // wraps there in a release build), and just below / at 1 with as many
+                "1.000000001", "1.8000000000", "1.0000000001", "1.100000000000", "1.9999999999999999999", "1.80000000000000000000", "1.000000000000000000000000000000000000001", "1.5000000000", "0.99999999999999999999", "1.00000000000000000000"] {
                 strings.push(format!("{}:{}", h, odd));
             }
         }
@@ -697,7 +700,7 @@ pub fn run(tier: &str, mode: Mode) -> i32 {
                 push_viol(&mut rep, "weight-junk", &s, &stage, &what, mode);
             }
         }
-        rep.sub("weight-junk", "ten token heads x five weights x one junk symbol (alphabet plus x e E _ / ; quotes CR LF) after, before and inside the weight, before the colon and before the head; doubled weights; every weight text of <= 4 characters over {0,1,5,.,-,e} and of 5 over {0,1,5,.}; and 31 weight spellings a float parser accepts but the notation does not (signs, exponents, .5, inf, nan, 1.5, unicode digits); distinct_nontrivial = strings accepted as a token", st_all.strings, st_all.parsed_tokens, false, json!({}));
+        rep.sub("weight-junk", "ten token heads x five weights x one junk symbol (alphabet plus x e E _ / ; quotes CR LF) after, before and inside the weight, before the colon and before the head; doubled weights; every weight text of <= 4 characters over {0,1,5,.,-,e} and of 5 over {0,1,5,.}; and 41 weight spellings, most of which a float parser accepts but the notation does not (signs, exponents, .5, inf, nan, 1.5, unicode digits, literals above 1 with 9 to 39 fraction digits); distinct_nontrivial = strings accepted as a token", st_all.strings, st_all.parsed_tokens, false, json!({}));
     }
 
     // (c4) longer strings with a multi-byte character straddling every small byte offset
